@@ -74,7 +74,8 @@ Definition bit (b : bool) (n : N) : N := if b then n else 0%N.
 (* ---------------------------------------------------------------- reply cases (C04, C05) *)
 Record rcase := {
   rc_object_only : bool;         (* receive_reply of the tree under test refuses non-object frames *)
-  rc_e : shape;                  (* the caller's error type *)
+  rc_e : shape;                  (* the caller's error type, as the tree under test implements it *)
+  rc_espec : shape;              (* ... as the property reads it (differs only for an open finding) *)
   rc_p : shape;                  (* the expected parameter type *)
   rc_frame : jval;
   rc_recv : outcome;             (* Connection::receive_reply::<P,E>() *)
@@ -109,7 +110,7 @@ Definition check_reply (c : rcase) : N :=
    match rc_frame c with
    | JObj ms =>
        bit (has_memberb "error" ms && is_success (rc_recv c)) 2 +
-       bit (nodupb (keys ms) && negb (outcome_eqb (spec_classify (rc_e c) (rc_p c) ms) (rc_recv c))) 4
+       bit (nodupb (keys ms) && negb (outcome_eqb (spec_classify (rc_espec c) (rc_p c) ms) (rc_recv c))) 4
    | _ => 0
    end +
    bit (negb (outcome_eqb (rc_call c) (rc_recv c))) 8 +
@@ -121,7 +122,7 @@ Definition check_reply (c : rcase) : N :=
 
 Definition show_reply (c : rcase) :=
   (receive_reply_model (rc_object_only c) (rc_e c) (rc_p c) (rc_frame c),
-   match rc_frame c with JObj ms => Some (spec_classify (rc_e c) (rc_p c) ms) | _ => Some DecodeError end,
+   match rc_frame c with JObj ms => Some (spec_classify (rc_espec c) (rc_p c) ms) | _ => Some DecodeError end,
    (model_dvs c, model_derr c, model_drep c),
    (re_enc vs_error_shape (model_dvs c), re_enc (rc_e c) (model_derr c),
     re_enc (reply_shape (rc_p c)) (dec_reply (rc_p c) (rc_frame c)))).
